@@ -43,6 +43,8 @@ fn main() {
                        let r = MappedSlice::<u64>::new(&m, 3);
                        let s = match &r { Ok(sl) => format!("Ok: slice of {} items over a {}-element map, map_len {}", sl.len(), m.len(), sl.map_len()), Err(e) => format!("Err({:?})", e.kind()) };
                        drop(r); drop(m); std::fs::remove_file(&f).unwrap(); s }
+            "F13" => { let mut r = RawVector::with_len(1, false); r.set_bit(0, true); r.set_bit(1, true); let b = BitVector::from(r);
+                       format!("len {} ones {} zero_iter().next() = {:?}", b.len(), b.count_ones(), b.zero_iter().next()) }
             _ => "unknown".to_string(),
         }
     });
